@@ -90,7 +90,10 @@ async fn main() {
                 let mut got: Vec<String> = vec![];
                 let mut events = vec![];
                 loop {
-                    match tokio::time::timeout(Duration::from_millis(if got.is_empty() && events.is_empty() { 1500 } else { 3000 }), rx.next()).await {
+                    // wait long while something is still expected (a loaded machine must not look like a lost replay); only the
+                    // ABSENCE of a replay is decided by a short wait
+                    let wait = if got.len() < want.len() || (!want.is_empty() && !events.contains(&"replay-ended")) { 120_000 } else { 1500 };
+                    match tokio::time::timeout(Duration::from_millis(wait), rx.next()).await {
                         Ok(Some(StreamEvent::Processed { operation, .. })) => { got.push(hex(operation.id().as_bytes())); events.push("processed"); }
                         Ok(Some(StreamEvent::ReplayStarted { .. })) => events.push("replay-started"),
                         Ok(Some(StreamEvent::ReplayEnded)) => { events.push("replay-ended"); break; }
@@ -132,14 +135,16 @@ async fn main() {
             let node = p2panda::builder().database_url(&url).ack_policy(AckPolicy::Explicit).spawn().await.unwrap();
             let (tx, mut rx) = node.stream::<String>(topic).await.unwrap();
             let imp = tx.import(futures_util::stream::iter(vec![o0, o1])).await.unwrap(); let _ = imp.await;
-            let mut seen = 0; while seen < 2 { match tokio::time::timeout(Duration::from_secs(10), rx.next()).await { Ok(Some(StreamEvent::Processed { .. })) => seen += 1, Ok(Some(_)) => {}, _ => break } }
+            let mut seen = 0; while seen < 2 { match tokio::time::timeout(Duration::from_secs(120), rx.next()).await { Ok(Some(StreamEvent::Processed { .. })) => seen += 1, Ok(Some(_)) => {}, _ => break } }
             let imp = tx.import(futures_util::stream::iter(vec![forged])).await.unwrap(); let _ = imp.await;
             let _ = tokio::time::timeout(Duration::from_millis(500), rx.next()).await;
         }
         let node = p2panda::builder().database_url(&url).ack_policy(AckPolicy::Explicit).spawn().await.unwrap();
         let (_tx, mut rx) = node.stream::<String>(topic).await.unwrap();
         let mut got = vec![];
-        loop { match tokio::time::timeout(Duration::from_secs(3), rx.next()).await { Ok(Some(StreamEvent::Processed { operation, .. })) => got.push(hex(operation.id().as_bytes())), Ok(Some(StreamEvent::ReplayEnded)) => break, Ok(Some(_)) => {}, _ => break } }
+        // two operations are expected: wait long for them (a correct node replays within milliseconds; a node that lost the
+        // frontier never sends them, which costs one long wait only on a broken tree)
+        loop { match tokio::time::timeout(Duration::from_secs(if got.len() < 2 { 20 } else { 3 }), rx.next()).await { Ok(Some(StreamEvent::Processed { operation, .. })) => got.push(hex(operation.id().as_bytes())), Ok(Some(StreamEvent::ReplayEnded)) => break, Ok(Some(_)) => {}, _ => break } }
         if got == want { nonempty += 1; }
         if got != want && reported.insert("unacknowledged-operation-not-replayed-after-restart") {
             rp_core::report(true, "unacknowledged-operation-not-replayed-after-restart", json!({"stored_unacknowledged": 2, "then": format!("an invalid operation claiming the same author at seq 7 ({}) is imported and rejected", if with_body { "with a body" } else { "without a body" }), "restart": true}),
